@@ -737,18 +737,28 @@ class Program:
                 yield f
 
 
-def own_nodes(fn_node: ast.AST) -> Iterator[ast.AST]:
+_OWN_CACHE: Dict[int, Tuple[ast.AST, List[ast.AST]]] = {}
+
+
+def own_nodes(fn_node: ast.AST) -> List[ast.AST]:
     """all nodes of a function body, not descending into nested defs/classes/lambdas'
-    own scopes (nested function *definitions* are yielded but not entered)."""
+    own scopes (nested function *definitions* are yielded but not entered).  Memoised per node object (the trees of a
+    Program are not edited after the inline pre-pass; the cache entry keeps the node alive so ids cannot be reused)."""
+    hit = _OWN_CACHE.get(id(fn_node))
+    if hit is not None and hit[0] is fn_node:
+        return hit[1]
     body = fn_node.body if isinstance(fn_node.body, list) else [fn_node.body]
     stack = list(reversed(body))
+    out: List[ast.AST] = []
     # also default values / decorators are outside the body; skip
     while stack:
         n = stack.pop()
-        yield n
+        out.append(n)
         if isinstance(n, (ast.FunctionDef, ast.AsyncFunctionDef, ast.ClassDef, ast.Lambda)):
             continue
         stack.extend(reversed(list(ast.iter_child_nodes(n))))
+    _OWN_CACHE[id(fn_node)] = (fn_node, out)
+    return out
 
 
 def calls_in(fn_node: ast.AST) -> Iterator[ast.Call]:
